@@ -271,7 +271,7 @@ def work_state(shard):
     for c in shard:
         t, l, o, m, sh, nt = c
         ref = STATE_T[t] + STATE_L[l] + STATE_O[o] + STATE_M[m] + STATE_SHIFT[sh] + STATE_NOTE[nt] + b'C'
-        classes = 'T%d/L%d/O%d/M%d/shift%d' % (t, l, o, m, sh)
+        classes = 'form-%s' % STATE_NOTE[nt].decode()
         run_case(s, part, 'state', [ref], classes, {'leg': 'state', 'idx': list(c)})
         part.classes.add('%s/%s' % (STATE_M[m].decode() or 'M-', STATE_SHIFT[sh].decode()[:2] or 'noshift'))
     part.sample({'idx': [list(c) for c in shard[:2]]})
